@@ -1985,6 +1985,9 @@ func (s *sequenceState) opFreeStateID(args *nfsv4.FreeStateid4args) nfsv4.FreeSt
 	if st := nfs41CompareStateSeqID(stateID.seqID, lofs.stateID.seqID); st != nfsv4.NFS4_OK {
 		return nfsv4.FreeStateid4res{FsrStatus: st}
 	}
+	if *lofs.lockCount > 0 {
+		return nfsv4.FreeStateid4res{FsrStatus: nfsv4.NFS4ERR_LOCKS_HELD}
+	}
 	lofs.remove(cis, &ll)
 	return nfsv4.FreeStateid4res{FsrStatus: nfsv4.NFS4_OK}
 }
